@@ -179,7 +179,7 @@ impl Monitor for C14 {
         Outcome::Held
     }
     fn workload(&self, w: &Work, emit: &mut dyn FnMut(Case)) -> J {
-        let n = w.share(30_000, 2_000_000);
+        let n = w.share(120_000, 4_000_000);
         let mut rng = w.rng("C14", 1);
         // backslash and brackets as literals: rendered as \\\\ \\[ \\], the stripper's escape tracking is the target
         let mut cfg = GenCfg::std(&['a', 'b', 'A', ' ', '\t', '1', '\u{10400}', '\\', '[', ']', '\\', ' ']);
@@ -363,7 +363,7 @@ impl Monitor for C17 {
         Outcome::Held
     }
     fn workload(&self, w: &Work, emit: &mut dyn FnMut(Case)) -> J {
-        let n = w.share(30_000, 2_500_000);
+        let n = w.share(120_000, 4_000_000);
         let mut rng = w.rng("C17", 1);
         let alpha = ['a', 'b', 'A', '1', ' ', '^', '$', '\u{10400}'];
         let common = common_cfg(&alpha);
@@ -663,7 +663,7 @@ impl Monitor for C20 {
         Outcome::Held
     }
     fn workload(&self, w: &Work, emit: &mut dyn FnMut(Case)) -> J {
-        let n = w.share(40_000, 3_000_000);
+        let n = w.share(120_000, 4_000_000);
         let mut rng = w.rng("C20", 1);
         // letters beyond the first hundred code points as well: the optimiser's disjointness test
         // gives up after scanning that many characters of a class
